@@ -1335,6 +1335,8 @@ impl Session {
         };
         // Process data from streams and send as frames
         loop {
+            #[cfg(anytls_rs_verif)]
+            verif_sched::point("pump.loop").await;
             iteration += 1;
             tracing::trace!(
                 session_id = session_id,
@@ -1482,7 +1484,9 @@ pub mod verif_sched {
         "io_err.enter",
         "close.flag_set",
         "close.before_writer",
+        "open.checked",
         "open.registered",
+        "pump.loop",
     ];
 }
 
